@@ -191,6 +191,7 @@ var opSchemeLists = [][]string{nil, {"http"}, {"https"}, {"http", "https"}, {"ht
 func genSchemes(t *rapid.T, c *Case) {
 	c.RtSchemes = rapid.SampledFrom(rtSchemeLists).Draw(t, "rtschemes")
 	c.OpSchemes = rapid.SampledFrom(opSchemeLists).Draw(t, "opschemes")
+	c.Signer = rapid.IntRange(0, 3).Draw(t, "signing-auth-writer") == 0
 	if rapid.IntRange(0, 5).Draw(t, "base-path-reassigned") == 0 {
 		c.EarlierBase = "-" + rapid.SampledFrom([]string{"", "/", "/v1", "/v1?rev=1", "old/", "/a/b?x=y"}).Draw(t, "earlier-base")
 	}
